@@ -330,6 +330,9 @@ func c12Store(c *fw.Ctx, ep entryPoint, v any) {
 	}
 	in := func() string { return fmt.Sprintf("%s with %s", ep.name, describeGo(v)) }
 	c.Count("stores")
+	if c.WantSample() && (ep.name == "list.SetTF-nested" || ep.name == "NewObjectFrom" || ep.name == "list.MapInts") {
+		c.Sample(map[string]any{"entry_point": ep.name, "go_value": describeGo(v), "supported": supported})
+	}
 	c.SetAdd("entry_points", ep.name)
 	c.SetAdd("go_types", fmt.Sprintf("%T", v))
 	if !supported && strings.HasSuffix(ep.name, "MapAsync") {
